@@ -36,6 +36,12 @@ RULE = ("(1) Old-style CNF formulas: literal = tag x {positive, '-', '~'} x {bar
         "either of the two accepted when the only new-style feature is a wildcard. "
         "(4) Configuration(['--tags=G1','--tags=G2']) with tag_expression_protocol v1/auto_detect for all ordered "
         "formulas <= 2x2 over signed {a,b,c}. "
+        "(5) Read-operation sequences on ONE parsed object: every sequence of <= 2 (quick) / <= 3 (thorough) operations "
+        "over {check (all 16 rows), str(), to_string(), format/%s, repr(), len(), read of .ands/.limits} for v1 objects "
+        "(all ordered formulas <= 2x2 over signed {a,b,c,candor} under V1; under AUTO_DETECT those with <= 2 literals in "
+        "quick, all in thorough) and {check, evaluate, call, str(), to_string(), format, repr()} for v2 objects (all "
+        "ASTs <= 2 operands under V2; under AUTO_DETECT 1 operand in quick, all in thorough); every check in a sequence "
+        "must give the reference truth table, every other read what it gives on a fresh object. "
         "A case is non-trivial when its reference truth table is not constant and it is not a single undecorated "
         "positive tag; distinct = distinct (signed CNF structure, decoration class) resp. distinct AST.")
 ASSUMPTIONS = [
@@ -477,6 +483,124 @@ def check_cli(case):
     return {"v": v, "nt": nt, "out": ("cli", want), "dg": got}
 
 
+# ---- read operations on one expression object ------------------------------------------------------
+# A parsed expression is kept (config.tag_expression) and is rendered (logs, summaries, diagnostics) and asked
+# many times.  Every sequence of read operations on ONE object: each check must still give the reference truth
+# table, every other read must give what it gives on a fresh object (reads are idempotent, meaning never changes).
+H_OPS_V1 = ("check", "str", "to_string", "format", "repr", "len", "state")
+H_OPS_V2 = ("check", "evaluate", "call", "str", "to_string", "format", "repr")
+H_CHECKS = ("check", "evaluate", "call")
+H_RENDER = ("str", "to_string", "format")
+
+
+def h_apply(e, op, rows):
+    try:
+        if op == "check":
+            return real_mask(e, rows)
+        if op == "evaluate":
+            return sum(1 << i for i, r in enumerate(rows) if e.evaluate(r))
+        if op == "call":
+            return sum(1 << i for i, r in enumerate(rows) if e(r))
+        if op == "str":
+            return str(e)
+        if op == "to_string":
+            return e.to_string()
+        if op == "format":
+            return ("{0}".format(e), "%s" % (e,), "{0!s}".format(e))
+        if op == "repr":
+            return repr(e)
+        if op == "len":
+            return len(e)
+        if op == "state":                   # the documented public attributes of a v1 expression, read only
+            return repr((e.ands, sorted(e.limits.items())))
+    except Exception as ex:
+        return ("EXC", type(ex).__name__)
+    raise ValueError(op)
+
+
+def h_opclass(op):
+    return "render-text" if op in H_RENDER else ("ask" if op in H_CHECKS else op)
+
+
+def check_object_history(case):
+    """one expression object spec x every sequence of read operations up to the given length"""
+    dialect, spec, proto_name, maxlen = case
+    reset_protocol()
+    proto = getattr(P, proto_name)
+    if dialect == "v1":
+        arg, rows, sets, want = render_groups(spec), SUB4_LISTS, SUB4, ref_cnf_mask(spec)
+    else:
+        arg, rows, sets, want = c07.r_min(spec), V2_SUB_LISTS, V2_SUB, ref_v2_mask(spec)
+
+    def build():
+        return make_tag_expression(list(arg) if isinstance(arg, list) else arg, proto)
+    try:
+        probe = build()
+    except Exception as ex:
+        return {"out": ("hist", "unparsable", type(ex).__name__), "dg": "unparsable", "n": 0}
+    is_v1 = hasattr(probe, "ands")
+    ops = H_OPS_V1 if is_v1 else H_OPS_V2
+    base = dict((op, h_apply(build(), op, rows)) for op in ops)
+    if any(base[op] != want for op in ops if op in H_CHECKS):
+        # wrong (or ambiguous) already on a fresh object: the business of the other sub-checks
+        return {"out": ("hist", "fresh-object-disagrees"), "dg": repr(base), "n": len(ops)}
+
+    def expected(op):
+        return want if op in H_CHECKS else base[op]
+
+    def wrong_at(seq):
+        """index of the first operation of seq whose result is not the expected one (fresh object), else None"""
+        e = build()
+        for j, op in enumerate(seq):
+            r = h_apply(e, op, rows)
+            if r != expected(op):
+                return j, r
+        return None
+
+    v, obs, n = [], [], 0
+    for k in range(1, maxlen + 1):
+        for seq in itertools.product(ops, repeat=k):
+            n += 1
+            bad = wrong_at(seq)
+            obs.append((seq, bad))
+            if bad is None:
+                continue
+            j, r = bad
+            op = seq[j]
+            # minimal trigger: the shortest sub-sequence of the earlier operations after which op is still wrong
+            before = seq[:j]
+            minimal = before
+            found = False
+            for m in range(0, len(before)):
+                for idx in itertools.combinations(range(len(before)), m):
+                    cand = tuple(before[i] for i in idx) + (op,)
+                    w = wrong_at(cand)
+                    if w is not None and w[0] == len(cand) - 1:
+                        minimal, found = cand[:-1], True
+                        break
+                if found:
+                    break
+            d = {"subcheck": "object-history", "dialect": "v1" if is_v1 else "v2",
+                 "after": ">".join(h_opclass(o) for o in minimal) or "nothing"}
+            if isinstance(r, tuple) and r and r[0] == "EXC":
+                d["clause"] = "raises"
+                d["exc"] = r[1]
+            elif op in H_CHECKS:
+                d["clause"] = "meaning-changes-after-read"
+            else:
+                d["clause"] = "read-result-changes-after-read"
+            if op in H_CHECKS and not (isinstance(r, tuple)):
+                tags, g, w = first_diff(r, want, sets)
+                detail = "tags %r -> %s, the formula says %s" % (tags, g, w)
+            else:
+                detail = "got %r, a fresh object gives %r" % (r, expected(op))
+            v.append((d, "%s expression %r (%s, object %s): after %s the operation %s is wrong: %s"
+                      % ("old-style" if dialect == "v1" else "new-style", arg, proto_name, type(probe).__name__,
+                         list(before), op, detail)))
+    nt = ("hist", dialect, spec, proto_name) if want not in (0, FULL16) else None
+    return {"v": v, "nt": nt, "out": ("hist", "v1" if is_v1 else "v2", want), "dg": obs, "n": n}
+
+
 # ---------------------------------------------------------------- driver
 def run(ctx):
     init_worker()
@@ -489,6 +613,8 @@ def run(ctx):
         "v2_operand_occurrences": 3,
         "v2_alphabet_3_operands": list(c07.OPS_QUICK if quick else c07.OPS_FULL),
         "truth_table_rows": 16,
+        "read_operation_sequence_length": 2 if quick else 3,
+        "read_operations": {"v1": list(H_OPS_V1), "v2": list(H_OPS_V2)},
     }
     # (1) CNF, old-style
     shapes = [(1,), (2,), (1, 1)]
@@ -512,7 +638,21 @@ def run(ctx):
     for n, leaves in plan:
         ctx.sweep(check_v2_auto, c07.asts(n, leaves), chunk=128, name="v2 + mixed under auto-detect, %d operands" % n)
 
+    # (5) sequences of read operations on one object
+    hlen = 2 if quick else 3
+    hist = [("v1", decorate(s, STYLES27[(i * 7 + 5) % 27]), p, hlen)
+            for i, s in enumerate(ordered_structures(U4, 2, 2)) for p in ("V1", "AUTO_DETECT")
+            if p == "V1" or not quick or sum(len(g) for g in s) <= 2]     # auto-detection builds the same classes
+    ctx.sweep(check_object_history, hist, chunk=64, name="read-operation sequences on one v1 object")
+    hist2 = [("v2", a, p, hlen) for n_ in (1, 2) for a in c07.asts(n_, c07.OPS_FULL) for p in ("V2", "AUTO_DETECT")
+             if p == "V2" or not quick or n_ == 1]
+    ctx.sweep(check_object_history, hist2, chunk=64, name="read-operation sequences on one v2 object")
+
     outs = ctx.outcomes
+    ctx.guard(sum(1 for k in ctx.nt if k[0] == "hist" and k[1] == "v1") > 3000,
+              "at least 3000 non-trivial old-style objects put through read-operation sequences")
+    ctx.guard(sum(1 for k in ctx.nt if k[0] == "hist" and k[1] == "v2") > 1000,
+              "at least 1000 non-trivial new-style objects put through read-operation sequences")
     ctx.guard(outs.get(("render-identity", True), 0) > 0 and outs.get(("render-identity", False), 0) == 0,
               "prefixing renderer with identity callback reproduces C07's renderings")
     mixed = [k for k in outs if k[0] == "mixed"]
